@@ -15,8 +15,35 @@ PINS = {
  'context.rs': {'macro:create_context': ['C06', 'C08'], 'Context::new': ['C06'], 'Context::set': ['C01', 'C06', 'C08']},
  'init.rs': {'init': ['C01', 'C08', 'C12']},
  'descriptor.rs': {'DescriptorManager::new': ['C01', 'C18'], 'DescriptorManager::set': ['C18']},
+ # the public entry points: what they initialise, and in which order, is assumed by every unit (registries initialised before the first token is read)
+ 'lib.rs': {'parse_expression': ['C01', 'C02', 'C03', 'C05', 'C08', 'C09', 'C10', 'C12', 'C18'], 'execute': ['C01', 'C03', 'C04', 'C06', 'C07', 'C08', 'C09'], 'init': ['C01', 'C02', 'C03', 'C05', 'C08', 'C10', 'C12'],
+            'register_function': ['C01', 'C08'], 'register_prefix_op': ['C01', 'C08'], 'register_postfix_op': ['C01', 'C08'], 'register_infix_op': ['C01', 'C08']},
+ # the *shape* of the types: derive lists and the set of impl headers of a file. The units model `==`, `clone()`, `From` of these types structurally (derived impls);
+ # a hand-written impl or a changed derive list is outside that model
+ 'value.rs': {'shape:': ['C01', 'C03', 'C04', 'C06', 'C07', 'C09', 'C17']},
+ 'token.rs': {'shape:': ['C01', 'C02', 'C05', 'C10', 'C12']},
+ 'parser.rs': {'shape:': ['C01', 'C02', 'C05', 'C06', 'C07', 'C12', 'C18']},
 }
+PINS['operator.rs']['shape:'] = ['C01', 'C02', 'C03', 'C04', 'C05', 'C08', 'C12']
+PINS['context.rs']['shape:'] = ['C06', 'C07', 'C08']
+def shape(f):
+    t = [x.s for x in f.toks]; out = []; i = 0; n = len(t)
+    while i < n:
+        if t[i] == '#' and i + 2 < n and t[i + 1] == '[' and t[i + 2] == 'derive':
+            j = i
+            while j < n and t[j] != ']': j += 1
+            out.append(' '.join(t[i:j + 1])); i = j + 1
+        elif t[i] == 'impl':
+            j = i
+            while j < n and t[j] != '{': j += 1
+            out.append(' '.join(t[i:j])); i = j + 1
+        elif t[i] in ('enum', 'struct') and i + 1 < n:
+            out.append(t[i] + ' ' + t[i + 1]); i += 2
+        else: i += 1
+    return out
 def fingerprint(f, key):
+    if key == 'shape:':
+        return hashlib.sha256('\n'.join(shape(f)).encode()).hexdigest()[:20]
     if key.startswith('macro:'):
         for it in f.items:
             if it[0] == 'macro_rules' and it[1] == key[6:]:
